@@ -140,6 +140,40 @@ macro_rules! steady_checks {
     }};
 }
 
+
+/// FastFixedIn<f64>, chunk 8, constant ratio, 3 calls on the index signal.
+macro_rules! ffi_line {
+    ($nd:ident, $deg:expr, $ratio:expr, $MO:expr) => {{
+        let mut r = FastFixedIn::<f64>::new($ratio, 1.0, $deg, 8, 1).unwrap();
+        let t: f64 = 1.0 / $ratio;
+        let mut st = new_stream!();
+        let mut tau = [0.0f64; $MO];
+        let mut okall = true;
+        let mut seen = 0usize;
+        let mut c = 0;
+        while c < 3 {
+            let (ok, _, n) = call_line::<_, _, 8, $MO>($nd, &mut r, &mut st, &mut tau);
+            check!(ok, "C03.ok[base]");
+            unroll32!(j, $MO, {
+                if j < n {
+                    let want = -4.0 + ((st.produced + j + 1) as f64) * t;
+                    // the widest window (Septic) reaches 3 frames back: inside the stream from 3 on
+                    if want >= 3.0 {
+                        let d = tau[j] - want;
+                        if !(d <= 1.0e-7 && d >= -1.0e-7) { okall = false; }
+                        seen += 1;
+                    }
+                }
+            });
+            st.produced += n;
+            c += 1;
+        }
+        check!(okall, "C08.uniform_instants_from_start[base]");
+        check!(seen >= 6, "C08.harness_observed_enough_frames[base]");
+        forget(r);
+    }};
+}
+
 macro_rules! new_stream {
     () => {
         Stream { supplied: 0, produced: 0, last: 0.0, have_last: false }
@@ -168,7 +202,7 @@ harnesses! {
         let (ok, _, n) = call_line::<_, _, 14, 3>(nd, &mut r, &mut st, &mut tau);
         check!(ok, "C03.ok[base]");
         let pending = ramp && newr != 1.0;
-        warp_checks!(st, tau, n, 3, 1.0, t1, ramp, 1, "base", pending, "ramp_pending");
+        warp_checks!(st, tau, n, 3, 1.0, t1, ramp, 1, "base", pending, "ramp_pending_fast");
         cover!(ok && ramp && newr < 0.6, "ramped slow-down explored");
         cover!(ok && !ramp && newr > 1.9, "stepped speed-up explored");
         forget(r);
@@ -196,7 +230,7 @@ harnesses! {
         let (ok, _, n) = call_line::<_, _, 14, 3>(nd, &mut r, &mut st, &mut tau);
         check!(ok, "C03.ok[base]");
         let pending = ramp && newr != 1.0;
-        warp_checks!(st, tau, n, 3, 1.0, t1, ramp, 1, "base", pending, "ramp_pending");
+        warp_checks!(st, tau, n, 3, 1.0, t1, ramp, 1, "base", pending, "ramp_pending_fast");
         cover!(ok && ramp && newr < 0.6, "ramped slow-down explored");
         cover!(ok && !ramp && newr > 1.9, "stepped speed-up explored");
         forget(r);
@@ -224,12 +258,38 @@ harnesses! {
         check!(ok, "C03.ok[base]");
         let pending = ramp && newr != 1.0;
         check!(!probe::offline() || pending, "C06.window_on_supplied_data[base]");
-        check!(!probe::offline() || !pending, "C06.window_on_supplied_data[ramp_pending]");
+        check!(!probe::offline() || !pending, "C06.window_on_supplied_data[ramp_pending_sinc]");
         check!(!probe::bad_window() && !probe::bad_subindex(), "C03.kernel_window[base]");
-        warp_checks!(st, tau, n, 3, 1.0, t1, ramp, 4, "base", pending, "ramp_pending");
+        warp_checks!(st, tau, n, 3, 1.0, t1, ramp, 4, "base", pending, "ramp_pending_sinc");
         cover!(pending, "ramp_pending region explored");
         cover!(!pending, "base region explored");
         cover!(ok && ramp, "ramped change explored");
+        forget(r);
+    }
+
+
+    // ------------------------------------------------------------- thorough: a larger fixed-output chunk.
+    // The input need during a ramp matters only when chunk * |1/old - 1/new| exceeds the margin.
+    #[kani::unwind(24)]
+    fn c06_ffo_change_big(nd) {
+        let mut r = FastFixedOut::<f64>::new(1.0, 2.0, PolynomialDegree::Linear, 20, 1).unwrap();
+        let mut st = new_stream!();
+        let mut tau = [0.0f64; 20];
+        let (ok, _, n) = call_line::<_, _, 48, 20>(nd, &mut r, &mut st, &mut tau);
+        check!(ok && n == 20, "C03.ok[base]");
+        st.last = tau[19];
+        st.have_last = true;
+        st.produced = 20;
+        let k = nd.u8();
+        let newr = (k as f64) / 32.0;
+        let ramp = nd.bool();
+        nd.assume(r.set_resample_ratio(newr, ramp).is_ok());
+        let t1 = 1.0 / newr;
+        let (ok, _, n) = call_line::<_, _, 48, 20>(nd, &mut r, &mut st, &mut tau);
+        check!(ok, "C03.ok[base]");
+        let pending = ramp && newr != 1.0;
+        warp_checks!(st, tau, n, 20, 1.0, t1, ramp, 1, "base", pending, "ramp_pending_fast_big");
+        cover!(pending && newr < 0.6, "ramped slow-down explored");
         forget(r);
     }
 
@@ -258,13 +318,137 @@ harnesses! {
         // ratio while the position advances by the mean reciprocal (region `ramp_pending`)
         let pending = ramp && newr != 1.0;
         check!(!probe::offline() || pending, "C06.window_on_supplied_data[base]");
-        check!(!probe::offline() || !pending, "C06.window_on_supplied_data[ramp_pending]");
+        check!(!probe::offline() || !pending, "C06.window_on_supplied_data[ramp_pending_sinc]");
         check!(!probe::bad_window() && !probe::bad_subindex(), "C03.kernel_window[base]");
         // the probe's value stands for the window centre: the window reaches len/2 beyond it
-        warp_checks!(st, tau, n, 3, 1.0, t1, ramp, 4, "base", pending, "ramp_pending");
+        warp_checks!(st, tau, n, 3, 1.0, t1, ramp, 4, "base", pending, "ramp_pending_sinc");
         cover!(pending, "ramp_pending region explored");
         cover!(!pending, "base region explored");
         cover!(ok && ramp, "ramped change explored");
+        forget(r);
+    }
+
+
+    // ------------------------------------------------------------- FastFixedIn / SincFixedIn, ratio change
+    // (variable number of frames per call; chunk 8 so that the loop produces frames every call)
+    #[kani::unwind(19)]
+    fn c06_ffi_change_grid(nd) {
+        let mut r = FastFixedIn::<f64>::new(1.0, 1.5, PolynomialDegree::Linear, 8, 1).unwrap();
+        let mut st = new_stream!();
+        let mut tau = [0.0f64; 22];
+        let (ok, _, n) = call_line::<_, _, 8, 22>(nd, &mut r, &mut st, &mut tau);
+        check!(ok, "C03.ok[base]");
+        st.produced += n;
+        let (ok, _, n) = call_line::<_, _, 8, 22>(nd, &mut r, &mut st, &mut tau);
+        check!(ok && n >= 2, "C03.ok[base]");
+        st.last = tau[n - 1];
+        st.have_last = true;
+        st.produced += n;
+        let k = nd.u8();
+        let newr = (k as f64) / 32.0;
+        let ramp = nd.bool();
+        nd.assume(r.set_resample_ratio(newr, ramp).is_ok());
+        let t1 = 1.0 / newr;
+        let (ok, _, n) = call_line::<_, _, 8, 22>(nd, &mut r, &mut st, &mut tau);
+        check!(ok, "C03.ok[base]");
+        // FixedIn ramps are planned for an estimated frame count and clamped at the target
+        // (after the fix of F10): spacing stays between the two reciprocals and monotone
+        warp_checks!(st, tau, n, 22, 1.0, t1, ramp, 1, "base");
+        cover!(ok && ramp && n > 3, "ramped call with several frames");
+        cover!(ok && !ramp && newr > 1.4, "stepped speed-up explored");
+        forget(r);
+    }
+    #[kani::unwind(19)]
+    fn c06_sfi_change_grid(nd) {
+        probe::reset_flags();
+        let mut r = SincFixedIn::<f64>::new_with_interpolator(1.0, 1.5, SincInterpolationType::Linear, probe::boxed64(8, 2), 8, 1).unwrap();
+        let mut st = new_stream!();
+        let mut tau = [0.0f64; 22];
+        let (ok, _, n) = call_line::<_, _, 8, 22>(nd, &mut r, &mut st, &mut tau);
+        check!(ok, "C03.ok[base]");
+        st.produced += n;
+        let (ok, _, n) = call_line::<_, _, 8, 22>(nd, &mut r, &mut st, &mut tau);
+        check!(ok && n >= 2, "C03.ok[base]");
+        st.last = tau[n - 1];
+        st.have_last = true;
+        st.produced += n;
+        let k = nd.u8();
+        let newr = (k as f64) / 32.0;
+        let ramp = nd.bool();
+        nd.assume(r.set_resample_ratio(newr, ramp).is_ok());
+        let t1 = 1.0 / newr;
+        probe::set_strict(true);
+        let (ok, _, n) = call_line::<_, _, 8, 22>(nd, &mut r, &mut st, &mut tau);
+        check!(ok, "C03.ok[base]");
+        check!(!probe::offline(), "C06.window_on_supplied_data[base]");
+        check!(!probe::bad_window() && !probe::bad_subindex(), "C03.kernel_window[base]");
+        warp_checks!(st, tau, n, 22, 1.0, t1, ramp, 4, "base");
+        cover!(ok && ramp && n > 3, "ramped call with several frames");
+        forget(r);
+    }
+
+
+    // ------------------------------------------------------------- the chunk AFTER a ramp: spacing
+    // equals 1/new from its first frame on and its windows lie on supplied data
+    #[kani::unwind(8)]
+    fn c06_sfo_after_ramp_grid(nd) {
+        probe::reset_flags();
+        let mut r = SincFixedOut::<f64>::new_with_interpolator(1.0, 2.0, SincInterpolationType::Linear, probe::boxed64(8, 2), 3, 1).unwrap();
+        let mut st = new_stream!();
+        let mut tau = [0.0f64; 3];
+        let (ok, _, n) = call_line::<_, _, 14, 3>(nd, &mut r, &mut st, &mut tau);
+        check!(ok && n == 3, "C03.ok[base]");
+        let (ok, _, n) = call_line::<_, _, 14, 3>(nd, &mut r, &mut st, &mut tau);
+        check!(ok && n == 3, "C03.ok[base]");
+        let k = nd.u8();
+        let newr = (k as f64) / 32.0;
+        nd.assume(r.set_resample_ratio(newr, true).is_ok());
+        let t1 = 1.0 / newr;
+        // the ramp chunk itself (checked by c06_sfo_change_grid)
+        let (ok, _, n) = call_line::<_, _, 14, 3>(nd, &mut r, &mut st, &mut tau);
+        check!(ok && n == 3, "C03.ok[base]");
+        st.last = tau[2];
+        st.have_last = true;
+        probe::set_strict(true);
+        unsafe { probe::OFFLINE = false; }
+        let (ok, _, n) = call_line::<_, _, 14, 3>(nd, &mut r, &mut st, &mut tau);
+        check!(ok && n == 3, "C03.ok[base]");
+        // constant ratio again: every spacing (including the one across the boundary) is 1/new
+        let mut done = true;
+        let mut prev = st.last;
+        unroll32!(j, 3, {
+            let d = tau[j] - prev;
+            if !(d >= t1 - EPS && d <= t1 + EPS) { done = false; }
+            prev = tau[j];
+        });
+        check!(done, "C06.ramp_done[base]");
+        check!(!probe::offline(), "C06.window_on_supplied_data_after_ramp[base]");
+        check!(tau[2] + 4.0 < (st.supplied as f64) + EPS, "C06.supplied_after_ramp[base]");
+        cover!(newr < 0.7, "ramp down explored");
+        cover!(newr > 1.5, "ramp up explored");
+        forget(r);
+    }
+
+    // ------------------------------------------------------------- slow ratios on FastFixedIn (1/r > 7):
+    // frames are rare, the carried position is far back; uniform spacing across chunk boundaries
+    #[kani::unwind(8)]
+    fn c07_ffi_slow(nd) {
+        let mut r = FastFixedIn::<f64>::new(0.1, 1.25, PolynomialDegree::Linear, 8, 1).unwrap();
+        let k = nd.u8();
+        // ratio in [0.08, 0.125]
+        let newr = (k as f64) / 1024.0;
+        nd.assume(r.set_resample_ratio(newr, false).is_ok());
+        let t = 1.0 / newr;
+        let mut st = new_stream!();
+        let mut tau = [0.0f64; 12];
+        let mut c = 0;
+        while c < 6 {
+            let (ok, _, n) = call_line::<_, _, 8, 12>(nd, &mut r, &mut st, &mut tau);
+            check!(ok, "C03.ok[base]");
+            steady_checks!(r, st, tau, n, 12, newr, t, 8, "base");
+            c += 1;
+        }
+        cover!(st.have_last && st.produced >= 3, "several frames inside the stream observed");
         forget(r);
     }
 
@@ -306,6 +490,66 @@ harnesses! {
         steady_checks!(r, st, tau, n, 3, newr, t, 8, "base");
         cover!(newr < 0.6, "slow ratio explored");
         cover!(newr > 1.9, "fast ratio explored");
+        forget(r);
+    }
+
+
+
+    // ------------------------------------------------------------- C08(b): window selection of the blending
+    // degrees on the fixed-input type. A line is reproduced exactly by every degree >= 1, so the
+    // output IS the evaluation instant: frame j must sit at -4 + (j+1)/ratio (a window that
+    // starts one frame off shifts the result by a whole frame). Concrete ratios with non-integer
+    // instants; the position is negative most of the time (floor vs truncation matters).
+    #[kani::unwind(20)]
+    fn c08_ffi_quintic_line(nd) { ffi_line!(nd, PolynomialDegree::Quintic, 1.6, 24); }
+    #[kani::unwind(20)]
+    fn c08_ffi_septic_line(nd) { ffi_line!(nd, PolynomialDegree::Septic, 0.8, 18); }
+    #[kani::unwind(24)]
+    fn c08_ffi_cubic_line(nd) { ffi_line!(nd, PolynomialDegree::Cubic, 2.0, 28); }
+
+    // ------------------------------------------------------------- C08(b), blending degrees (thorough):
+    // a cubic through the index positions is reproduced at the uniformly spaced instants
+    #[kani::unwind(8)]
+    fn c08_ffo_cubic_poly(nd) {
+        let mut r = FastFixedOut::<f64>::new(1.0, 2.0, PolynomialDegree::Cubic, 3, 1).unwrap();
+        let k = nd.u8();
+        let newr = (k as f64) / 32.0;
+        nd.assume(r.set_resample_ratio(newr, false).is_ok());
+        let t = 1.0 / newr;
+        // P(n) = n^3/64 - n^2/8 + n - 2 on exact dyadic coefficients
+        let p = |n: f64| ((n / 64.0 - 0.125) * n + 1.0) * n - 2.0;
+        let mut pos = 0usize;
+        let mut produced = 0usize;
+        let mut okall = true;
+        let mut c = 0;
+        while c < 2 {
+            let n = r.input_frames_next();
+            nd.assume(n <= 14);
+            let mut x = [0.0f64; 14];
+            unroll32!(i, 14, { x[i] = p((pos + i) as f64); });
+            let mut o = [SENT; 3];
+            match r.process_into_buffer(&[&x[..n]], &mut [&mut o[..]], None) {
+                Ok((ni, no)) => {
+                    pos += ni;
+                    unroll32!(j, 3, {
+                        if j < no {
+                            let tau = -4.0 + ((produced + j + 1) as f64) * t;
+                            // window [floor(tau)-1, floor(tau)+2] must lie in the stream
+                            if tau >= 1.0 {
+                                let want = p(tau);
+                                let d = o[j] - want;
+                                if !(d <= 1.0e-9 && d >= -1.0e-9) { okall = false; }
+                            }
+                        }
+                    });
+                    produced += no;
+                }
+                Err(_) => { check!(false, "C03.ok[base]"); }
+            }
+            c += 1;
+        }
+        check!(okall, "C08.cubic_reproduced[base]");
+        cover!(newr > 1.5, "fast ratio explored");
         forget(r);
     }
 
